@@ -272,6 +272,28 @@ fn run_iter(ctx: &RunCtx, tier: Tier, cup: bool, multi: bool, iterations: usize)
     out
 }
 
+/// Every completed check of an arbitrary log (segments ending with Idle) judged by the flow oracle.
+pub fn judge_checks(log: &[Obs]) -> V {
+    judge_checks_cfg(log, false, false)
+}
+pub fn judge_checks_cfg(log: &[Obs], cup: bool, bad_url: bool) -> V {
+    let mut start = 0;
+    for (i, o) in log.iter().enumerate() {
+        if matches!(o, Obs::Note(n) if n == "RESTART") {
+            // a crash: the interrupted segment is not a completed check
+            start = i + 1;
+        }
+        if matches!(o, Obs::Ev(Ev::State(State::Idle))) {
+            let seg = &log[start..=i];
+            if seg.iter().any(|o| matches!(o, Obs::Ev(Ev::State(State::CheckingForUpdates(_))))) {
+                oracle(seg, Mode::Start, bad_url, cup)?;
+            }
+            start = i + 1;
+        }
+    }
+    Ok(())
+}
+
 fn outcome_class(log: &[Obs]) -> String {
     let mut s = String::new();
     for o in log {
@@ -796,6 +818,20 @@ fn parts(tier: Tier) -> Vec<PartDef> {
             Cfg::new("C04/three-consecutive-checks").dev(tier.pick(4, 6)),
             json!({"apps": "1..2", "iterations": 3, "alphabets": "as flow-nocup, chosen independently per check", "exploration": format!("all histories within {} non-default choices", tier.pick(4, 6))}),
             move |ctx| run_iter(ctx, tier, false, false, 3),
+        ),
+        PartDef::new(
+            "flows-under-control-requests",
+            Cfg::new("C04/flows-under-control-requests").dev(tier.pick(0, 1)).free(&["options", "inject", "policy.check", "server.update", "reboot_refusals"]),
+            json!({"driver": "the C11 one-request harness: every operation of the flow blocks, a request is injected at every step, both select! orders", "deviation_bound": tier.pick(0, 1),
+                   "oracle": "every completed check of the execution is judged by the flow reference (states, server response, result, Idle / WaitingForReboot)"}),
+            move |ctx| crate::props::c11::run_judged_by(ctx, tier, &judge_checks),
+        ),
+        PartDef::new(
+            "flows-in-histories",
+            Cfg::new("C04/flows-in-histories"),
+            json!({"driver": "the C08 history harness: histories of checks (15 classes incl. retries and event-report answers that dictate an interval), pings, end of wait and restarts, with and without CUP, with an unusable service URL",
+                   "history_length": format!("0..{}", tier.pick(3, 4)), "oracle": "every completed check of every history is judged by the flow reference", "exploration": "full product"}),
+            move |ctx| crate::props::c08::run_judged_by(ctx, tier.pick(3, 4), false, &|log, cup, bad_url| judge_checks_cfg(log, cup, bad_url)),
         ),
         PartDef::new(
             "reboot-wait-with-pings",
